@@ -142,6 +142,17 @@ fn judge_in_cert(k: StrKind, s: &str, ctx: &Ctx, f: &mut Vec<Finding>) -> u64 {
             }
         }
     }
+    // rcgen's own reader of the stored bytes (the import path) returns the original text under the same string kind
+    match guarded(|| rcgen::CertificateParams::from_ca_cert_der(&der.clone().into())) {
+        Ok(Ok(p)) => {
+            let got = super::c17::project_real(&p).dn;
+            if got != super::c17::project_state(&st).dn {
+                f.push(Finding::new("STR-IMPORT-TEXT", format!("{:?}", k), format!("{:?} is read back by rcgen as {:?}", s, got)));
+            }
+        }
+        Ok(Err(e)) => f.push(Finding::new("STR-IMPORT-TEXT", format!("{:?}", k), format!("{:?}: rcgen refuses the certificate it wrote: {:?}", s, e))),
+        Err(pn) => f.push(Finding::new("STR-IMPORT-TEXT", format!("{:?}", k), format!("{:?}: import panics: {}", s, pn))),
+    }
     fnv(&der)
 }
 
